@@ -13,6 +13,10 @@ use std::io::{BufRead, Write};
 mod common;
 use common::*;
 
+fn show<T: std::ops::Deref<Target = [u8]>, E>(r: Result<std::collections::HashSet<T>, E>) -> String {
+    match r { Ok(set) => { let mut v: Vec<String> = set.iter().map(|r| format!("r{}", hex(&r[..]))).collect(); v.sort(); format!("ok:{}", v.join(",")) } Err(_) => "err".to_string() }
+}
+
 fn main() {
     std::panic::set_hook(Box::new(|_| {}));
     let stdin = std::io::stdin();
@@ -118,6 +122,13 @@ fn main() {
                 match cc.recaps(&msk, &mpks[j], &encs[e].1) {
                     Ok((s, x)) => { writeln!(out, "OK|{}|{} ss=k{}", dump_msk(&msk), dump_enc(&x), hex(&s[..8])).unwrap(); encs.push((s, x)); }
                     Err(_) => writeln!(out, "ERR|{}", dump_msk(&msk)).unwrap(),
+                }
+            }
+            // function level: the two policy -> rights maps of the access structure, as sorted sets of right byte strings
+            "AP" => {
+                match pol!(f[1]) {
+                    Some(p) => writeln!(out, "AP usk={} enc={}|{}", show(msk.access_structure.ap_to_usk_rights(&p)), show(msk.access_structure.ap_to_enc_rights(&p)), dump_msk(&msk)).unwrap(),
+                    None => writeln!(out, "AP usk=err enc=err|{}", dump_msk(&msk)).unwrap(),
                 }
             }
             // refresh of a DAMAGED COPY of an issued key (one bit of its signature flipped): must be refused, nothing may change
